@@ -207,7 +207,10 @@ func (rt *runtime) cmplEvaluateNodeCallExpression(node *nodeCallExpression, with
 		case *propertyReference:
 			name = rf.name
 			this = objectValue(rf.base)
-			eval = rf.name == "eval" // Possible direct eval
+			// Possible direct eval: only when eval is named by an identifier (found in the global
+			// object or a with object), never when it is called as a member of an object (15.1.2.1.1).
+			_, identifier := node.callee.(*nodeIdentifier)
+			eval = identifier && rf.name == "eval"
 		case *stashReference:
 			// TODO ImplicitThisValue
 			name = rf.name
